@@ -16,6 +16,7 @@ type Env struct {
 	pkg     *types.Package
 	vars    map[string]Val
 	snap    map[string]string // heap snapshot to read from (nil = current heaps)
+	doneSym map[string]string // done(ctx) in a callee's postcondition at a call site: ctx term -> fresh boolean
 	oldSnap map[string]string // snapshot used by old(...)
 	hasOld  bool
 	quant   int
@@ -406,6 +407,16 @@ func (env *Env) evalSel(e *SExpr) Val {
 		if !ok {
 			env.errf("selector on pointer to non-struct: %s", e)
 			return intVal("0")
+		}
+		// interior pointer (address of a struct-valued field, element or local): read the struct value at the address
+		if x.A != nil && env.st != nil && (len(x.A.Path) > 0 || !types.Identical(x.A.RootT, x.A.T) || x.A.Kind != ACell) && x.A.Kind != ACell {
+			if fi := findField(s, e.Name); fi >= 0 {
+				if root, ok := env.rootOf(x.A); ok {
+					sv := projectPath(root, x.A.Path)
+					name := reg.structSort(s, typeHint(p.Elem()))
+					return env.typed(Val{S: fmt.Sprintf("(%s_f%d %s)", name, fi, sv), T: s.Field(fi).Type()})
+				}
+			}
 		}
 		i := findField(s, e.Name)
 		if i < 0 {
@@ -1009,4 +1020,21 @@ func (env *Env) content(v Val) string {
 		return fmt.Sprintf("(%s (select %s %s) %s %s)", fn, env.heap(hn, hs), slRef(v.S), slOff(v.S), slLen(v.S))
 	}
 	return env.eng.contentOf(env.st, v)
+}
+
+// rootOf reads the root location of an address in the heap version this environment looks at (old() aware).
+func (env *Env) rootOf(a *Addr) (string, bool) {
+	switch a.Kind {
+	case AField:
+		hn, hs := fieldHeapName(a.STT, a.ST, a.Field)
+		return sel(env.heap(hn, hs), a.Base), true
+	case AElem:
+		hn, hs := elemHeapName(a.RootT)
+		return sel(sel(env.heap(hn, hs), a.Base), a.Idx), true
+	case ALocal:
+		if env.snap == nil {
+			return env.st.loadRoot(a), true
+		}
+	}
+	return "", false
 }
